@@ -1074,7 +1074,8 @@ class Interp:
                     tgt, val = st.targets[0].id, st.value
                 elif isinstance(st, ast.AnnAssign) and isinstance(st.target, ast.Name) and st.value is not None:
                     tgt, val = st.target.id, st.value
-                if tgt == attr and not any(isinstance(n, (ast.Name, ast.Call, ast.Attribute, ast.List, ast.Dict, ast.Set)) for n in ast.walk(val)):
+                if tgt == attr and not any(isinstance(n, (ast.Name, ast.Call, ast.Attribute, ast.Set)) for n in ast.walk(val)):
+                    # literals only (numbers, strings, and tuples / lists / dicts of them): a read-only table
                     try:
                         return self.eval(val, {})
                     except Unsupported:
@@ -1239,6 +1240,10 @@ class Interp:
             return Opaque(obj.name + "[" + canon(key) + "]")
         raise Unsupported(f"subscript of {canon(obj)}", node)
 
+    def e_GeneratorExp(self, e, env):
+        """evaluated eagerly like a list comprehension (the fragment has no side effects that could tell the difference)"""
+        return self.e_ListComp(e, env)
+
     def e_ListComp(self, e, env):
         out = []
 
@@ -1389,6 +1394,8 @@ class Interp:
                     else:
                         best = r if le else best
                 return best
+        if dotted == "getattr" and len(args) in (2, 3) and isinstance(args[1], str) and isinstance(args[0], (Obj, Path, Opaque)):
+            return self.getattr(args[0], args[1], e)
         if dotted == "dict" and not args:
             return PDict(kwargs)
         if dotted == "list" and len(args) == 1 and isinstance(args[0], (PList, tuple)):
